@@ -130,6 +130,14 @@ def rule_raw_rows_dispatch(ctx):
     raw_rows_dispatch_table(ctx, "O4.4")
 
 
+def rule_blank_lines_are_rows(ctx):
+    """O4.9 (round 11, C12's table): the delimited reader hands on the row without items that stands for a blank line, so
+    row numbers - in errors, for the header and for the validation limit - are those of the data."""
+    from .c12 import rule_every_csv_row_is_passed_on
+
+    rule_every_csv_row_is_passed_on(ctx, "O4.9")
+
+
 from .common import rule_module_state  # noqa: E402
 
 def rule_ods_rows_keep_their_cells(ctx):
@@ -231,4 +239,4 @@ def rule_fields_judge_cells_alike_in_every_format(ctx):
     rule_format_independent_hooks(ctx)
 
 
-RULES = [rule_fields_judge_cells_alike_in_every_format, rule_validate_row, rule_cursor, rule_location_copies, rule_raw_rows_dispatch, rule_ods_rows_keep_their_cells, rule_items_are_the_cells_of_the_sheet, rule_locations_name_every_kind_of_source, rule_csv_errors_name_their_line, rule_module_state]
+RULES = [rule_blank_lines_are_rows, rule_fields_judge_cells_alike_in_every_format, rule_validate_row, rule_cursor, rule_location_copies, rule_raw_rows_dispatch, rule_ods_rows_keep_their_cells, rule_items_are_the_cells_of_the_sheet, rule_locations_name_every_kind_of_source, rule_csv_errors_name_their_line, rule_module_state]
